@@ -2,6 +2,7 @@ package rules
 
 import (
 	"fmt"
+	"go/constant"
 	"go/token"
 	"go/types"
 	"strings"
@@ -26,14 +27,16 @@ func init() {
 			NotCovered: "EQUALITY WITH THE SHA-256 SET MODEL (that Matches/Hashes return exactly the listed names' hashes) and THE PUBLIC-SUFFIX / FOUR-LABEL CUT of hashableSubdomains: " +
 				"hash and string computations outside static reach.",
 			Rules: map[string]string{"C11-R1": "question-type gates", "C11-R2": "prefix length table", "C11-R3": "refuse, not forward", "C11-R4": "digest split agreement",
-				"C11-R7": "hashprefix.Filter.FilterRequest: cache first; then the type gate; then every candidate name (host and parents) is matched in order until the first hit; a hit is answered with the replacement built for this request and cached under this request's key",
-				"C11-R9": "every name hashed by Storage.Reset comes from a line source that removes the whole line terminator (bufio.Scanner's line splitting, or an explicit trim): a carriage return left on the name changes its hash",
-				"C11-R5": "each Storage method reads the atomically published hash set at most once per path (one list version per answer)",
-				"C11-R6": "result-cache key is an injective packing of host, question type, class and direction (a collision lets a non-A/AAAA/HTTPS question hit a filtered entry)"},
+				"C11-R7":  "hashprefix.Filter.FilterRequest: cache first; then the type gate; then every candidate name (host and parents) is matched in order until the first hit; a hit is answered with the replacement built for this request and cached under this request's key",
+				"C11-R11": "builder wiring of the three hash-prefix filters: each filter's ID, cache file, hash storage, list URL and target field belong to the same list (two lists never share a cache file or a storage)",
+				"C11-R9":  "every name hashed by Storage.Reset comes from a line source that removes the whole line terminator (bufio.Scanner's line splitting, or an explicit trim): a carriage return left on the name changes its hash",
+				"C11-R5":  "each Storage method reads the atomically published hash set at most once per path (one list version per answer)",
+				"C11-R6":  "result-cache key is an injective packing of host, question type, class and direction (a collision lets a non-A/AAAA/HTTPS question hit a filtered entry)"},
 		}})
 }
 
 func runC11(c *an.Ctx) {
+	c11BuilderWiring(c)
 	// ---- R10: an oversized, truncated or non-200 list download never replaces the list (shared with C13-R1)
 	c.Floor("C11-R10", 3)
 	c.Borrow("C11-R10", runC13, func(o an.Obligation) bool { return o.Rule == "C13-R1" })
@@ -684,5 +687,88 @@ func c11LineSource(c *an.Ctx) {
 	}
 	if n == 0 {
 		c.Und("C11-R9", k+" hashing", fn.Pos(), "no SHA-256 call found in Reset")
+	}
+}
+
+// c11BuilderWiring checks that each of the three hash-prefix filters is wired to
+// its own list: ID constant, cache file named after that ID, its own hash
+// storage and URL, stored into its own builder field.
+func c11BuilderWiring(c *an.Ctx) {
+	c.Floor("C11-R11", 9)
+	for _, w := range []struct{ fn, id, hashes, url, target string }{
+		{"cmd.(*builder).initSafeBrowsing", "safe_browsing", "safeBrowsingHashes", "SafeBrowsingURL", "safeBrowsing"},
+		{"cmd.(*builder).initAdultBlocking", "adult_blocking", "adultBlockingHashes", "AdultBlockingURL", "adultBlocking"},
+		{"cmd.(*builder).initNewRegDomains", "newly_registered_domains", "newRegDomainsHashes", "NewRegDomainsURL", "newRegDomains"},
+	} {
+		fn := c.Fn(w.fn)
+		if fn == nil {
+			c.Und("C11-R11", w.fn, token.NoPos, "anchor not found")
+			continue
+		}
+		c.Analysed(w.fn)
+		constStr := func(v ssa.Value) (string, bool) {
+			for {
+				switch x := v.(type) {
+				case *ssa.Convert:
+					v = x.X
+					continue
+				case *ssa.ChangeType:
+					v = x.X
+					continue
+				case *ssa.MakeInterface:
+					v = x.X
+					continue
+				}
+				break
+			}
+			if k, ok := v.(*ssa.Const); ok && k.Value != nil && k.Value.Kind() == constant.String {
+				return constant.StringVal(k.Value), true
+			}
+			return "", false
+		}
+		var id, cacheID string
+		var hashes, url string
+		an.Instrs(fn, func(in ssa.Instruction) {
+			st, ok := in.(*ssa.Store)
+			if !ok {
+				return
+			}
+			typ, f, _, ok := an.FieldOf(st.Addr)
+			if !ok || typ != "filter/hashprefix.FilterConfig" {
+				return
+			}
+			switch f {
+			case "ID":
+				id, _ = constStr(st.Val)
+			case "Hashes":
+				hashes, _ = an.AccessPath(st.Val)
+			case "URL":
+				url, _ = an.AccessPath(st.Val)
+			case "CachePath":
+				if call, ok := st.Val.(*ssa.Call); ok && an.CalleeName(call) == "path/filepath.Join" {
+					// the variadic elements
+					if sl, ok := call.Call.Args[0].(*ssa.Slice); ok {
+						if al, ok := sl.X.(*ssa.Alloc); ok && al.Referrers() != nil {
+							for _, r := range *al.Referrers() {
+								if ia, ok := r.(*ssa.IndexAddr); ok && ia.Referrers() != nil {
+									for _, rr := range *ia.Referrers() {
+										if st2, ok := rr.(*ssa.Store); ok {
+											if s, isConst := constStr(st2.Val); isConst {
+												cacheID = s
+											}
+										}
+									}
+								}
+							}
+						}
+					}
+				}
+			}
+		})
+		c.Check(id == w.id, "C11-R11", w.fn+" ID", fn.Pos(), "the filter carries its list's ID", fmt.Sprintf("the filter is given the ID %q instead of %q", id, w.id))
+		c.Check(cacheID == w.id, "C11-R11", w.fn+" cache file", fn.Pos(), "the cache file is named after the filter's own ID",
+			fmt.Sprintf("the cache file is named %q instead of %q: two lists overwrite each other's on-disk copy and are loaded as one another", cacheID, w.id))
+		c.Check(strings.HasSuffix(hashes, "."+w.hashes) && strings.Contains(url, "."+w.url+"."), "C11-R11", w.fn+" storage and URL", fn.Pos(),
+			"the filter fills its own hash storage from its own URL", fmt.Sprintf("the filter is wired to storage %s and URL %s of another list", hashes, url))
 	}
 }
